@@ -876,6 +876,7 @@ func runC11(c *Ctx) {
 		}
 		return
 	}
+	runOSCacheLayer(c)
 	// small scope, exhaustive: "hello world" cached coherently, one O_RDWR handle through the cache, every
 	// sequence of 2 (quick) / 3 (thorough) handle methods from a menu of 14
 	depth := 2
